@@ -34,6 +34,17 @@ def r10a(P, R):
         else:
             R.check("R10-a", "kind-target:" + adt, skips == [(guard, False)], "skipped exactly when target.%s()" % guard,
                     "%s is skipped under %s; it must be skipped exactly for %s targets" % (adt, skips, "input" if guard == "is_input" else "output"), loc=f.loc())
+    # objects: `__typename` is the literal of the *schema* name (never the clash-avoiding local alias)
+    o = impl(P, "ObjectTypeDefinition")
+    opv = Prov(o)
+    sl = [c for c in o.walk() if c.get("k") == "Call" and norm(c.get("callee", "")).endswith("TSType::StringLiteral")]
+    R.floor("R10-a", "__typename literal in object declarations", len(sl), 1)
+    for c in sl:
+        a = opv.atoms(c["args"][0])
+        ok = has_field(a, A + "type_system::ObjectTypeDefinition", "name") and not has_field(a, CTX, "local_type_names")
+        R.check("R10-a", "typename-literal", ok, "__typename: \"<schema name of the object>\"",
+                "the __typename literal of an object declaration is computed from %s: a renamed object gets `__typename: \"__tmp_X\"`"
+                % ("context.local_type_names" if has_field(a, CTX, "local_type_names") else "something other than the object's name"), loc=o.loc())
     tt = P.fn("nitrogql_config_file::type_target::TypeTarget::is_output")
     for m in tt.walk():
         if m.get("k") == "Match":
@@ -86,6 +97,28 @@ def r10b(P, R):
     pv = Prov(ml)
     ok = has_call(pv.atoms(ml.body), "context::get_bag_of_identifiers") and any(c.get("k") == "MethodCall" and c["method"] == "contains" for c in ml.walk())
     R.check("R10-b", "rename-on-clash", ok, "a schema type is renamed iff its name is in the identifier bag", "make_local_type_names does not test membership in the identifier bag", loc=ml.loc())
+    # the identifier bag covers the scalar mappings of *all four* targets: the module-level alias `export type X = ...` is shared by
+    # every namespace, so a clash in any target's mapping must rename X everywhere
+    CFGS = "nitrogql_config_file::scalar_type::"
+    gpv = Prov(g)
+    ga = gpv.atoms(g.body)
+    tt_params = [short(f.path) for f in (g, ml) for t in f.sig_inputs if "TypeTarget" in t]
+    ok = has_call(ga, "ScalarTypeConfig::type_names") and not has_call(ga, "ScalarTypeConfig::get_type") and not tt_params
+    R.check("R10-b", "bag-all-targets", ok, "the bag is built from ScalarTypeConfig::type_names() (every target's mapping)",
+            "the identifier bag is built per target (%s): a schema type whose name occurs only in another target's scalar mapping is not renamed, "
+            "and the shared module-level alias of that name shadows the global identifier inside that target's namespace"
+            % (tt_params or "get_type(target) instead of type_names()"), loc=g.loc())
+    tn = P.fn(CFGS + "ScalarTypeConfig::type_names")
+    tpv = Prov(tn)
+    for m in matches_on(tn, "ScalarTypeConfig"):
+        tab = variant_table(m)
+        for k, adt_name in (("SendReceive", "SendReceiveScalarTypeConfig"), ("Separate", "SeparateScalarTypeConfig")):
+            arm = tab.get(k)
+            adt = P.adt(CFGS + adt_name)
+            got = {x[2] for x in tpv.atoms(arm["body"]) if x[0] == "field" and x[1] == adt.path} if arm else set()
+            R.check("R10-b", "type-names:" + k, got == set(adt.fields()), "type_names() lists every mapping of a %s config" % k,
+                    "ScalarTypeConfig::type_names omits %s of a %s config: identifiers of that mapping never enter the clash bag"
+                    % (sorted(set(adt.fields()) - got), k), loc=tn.loc())
     # export_type: the renamed alias is re-exported under the schema name
     for name in ("export_type", "export_representative"):
         f = P.fn(PR + "schema_type_printer::type_printer::" + name)
@@ -187,6 +220,20 @@ def r10d(P, R):
     pvp = Prov(pd)
     ok = any((call_name(c) or "").endswith("get_resolver_type") for c in pd.walk() if c.get("k") == "Call") and \
         any(c.get("k") == "MethodCall" and c["method"] == "transform_document_for_resolvers" for c in pd.walk())
+    # plugins compose: each plugin transforms the result of the previous one
+    tcalls = [(i, c) for i, (c, _) in enumerate(pd.nodes()) if c.get("k") == "MethodCall" and c["method"] == "transform_document_for_resolvers"]
+    for i, c in tcalls:
+        cls = [x for x in enclosing_contexts(pd, i) if x[0] == "closure"]
+        folds = [n for n in pd.walk() if n.get("k") == "MethodCall" and n["method"] == "fold" and any(a is cls[0][1] for a in n["args"])] if cls else []
+        if not folds:
+            R.undecided("R10-d", "plugins-compose", "plugin transformations are not applied by a fold over the plugin list", loc=pd.loc())
+            continue
+        acc = [b["local"] for b in subnodes(cls[0][1]["params"][0]) if b.get("k") == "Binding"]
+        used = {y.get("local") for y in subnodes(c["args"][0]) if y.get("k") == "Path"}
+        R.check("R10-d", "plugins-compose", bool(set(acc) & used), "each plugin receives the document produced by the previous plugins",
+                "in the fold over plugins, transform_document_for_resolvers is not given the accumulated document: only the last transforming "
+                "plugin takes effect and the fields excluded by earlier plugins require resolvers again", loc=pd.loc())
+    R.floor("R10-d", "plugin transformation sites", len(tcalls), 1)
     R.check("R10-d", "resolver-root", ok, "Resolvers maps every type definition of the plugin-transformed document", "resolver root no longer covers every definition", loc=pd.loc())
 
 
